@@ -168,3 +168,14 @@ CHECKS["C10"] = dict(
     assumptions=["one executor process per case", "fault 'unreadable file' cannot be produced as root"],
     units=[unit("props", ["Reload"], "C10", needs=["inpkg-main"])],
 )
+
+CHECKS["C11"] = dict(
+    level="exploration",
+    rule=_CFG_GEN + "A case is an initial configuration and 1..6 reloads, each a freshly generated configuration to which one retained service (TCP+UDP listener on one address, key 'shared' first) is added. "
+         "1..8 hammering goroutines connect continuously with the retained key (generated pacing), 0..3 goroutines send datagrams from never-reused local ports, and 0..4 relays (idle / mid-transfer / half-closed, "
+         "0..40 KB before and 1..200 KB after the reloads, target on the local allowed address 192.0.2.2) are opened before the first reload. Oracle: no dial refused or reset; each connection has exactly one "
+         "open/close report pair and authenticates as 'shared'; each datagram is processed at most once and authenticates; every relay completes byte-for-byte with status OK. "
+         "Non-trivial = a hammer connection whose lifetime overlaps a reload, or a relay that outlives one. Distinct = canonical case JSON.",
+    assumptions=["timings are sampled by hammering, not enumerated", "relays need a local address the default policy allows; skipped (recorded) otherwise", "unprocessed datagrams are counted inconclusive, not violations"],
+    units=[unit("props", ["Hammer"], "C11", needs=["inpkg-main"])],
+)
